@@ -41,7 +41,7 @@ impl Check for C04 {
     fn total_cases(&self, tier: Tier) -> u64 {
         match tier {
             Tier::Quick => 600_000,
-            Tier::Thorough => 3_000_000,
+            Tier::Thorough => 10_000_000,
         }
     }
     fn strategy(&self, _tier: Tier) -> BoxedStrategy<MCase> {
